@@ -456,7 +456,7 @@ def kernels(tier, seed):
         solvers = ksmt.available()[:1]
     out = []
     for sname in solvers:
-        for r in ksmt.run_batch(sname, pre, queries, timeout_s=120 if tier == 'quick' else 600):
+        for r in ksmt.run_batch(sname, pre, queries, timeout_s=120):
             kr = {'name': 'K1 ' + r['name'] + '@' + sname, 'status': r['status'], 'solver': sname, 'queries': 1,
                   'solver_time_s': r['solver_time_s'], 'bound': 'strings of any length over U+0000..U+2FFFF; '
                   'any integer; both booleans', 'detail': ''}
